@@ -554,13 +554,20 @@ def worker():
         return _WORKER
     from geff_spec._schema import _formatted_schema_json
 
-    d = Path(tempfile.mkdtemp(prefix="c08w-"))
-    atexit.register(shutil.rmtree, str(d), True)
     try:
         exp_text = _formatted_schema_json()
     except Exception as e:  # the export itself is broken: an unusable schema
         exp_text = json.dumps({"type": f"export failed: {type(e).__name__}"})
-    (d / "exported.json").write_text(exp_text)
+    # one file per schema text under the scratch directory (the pool workers exit without running atexit handlers: a temporary
+    # directory per worker used to stay behind in /tmp)
+    import hashlib
+
+    d = common.WORK / "c08-schemas" / hashlib.sha1(exp_text.encode()).hexdigest()[:16]
+    d.mkdir(parents=True, exist_ok=True)
+    if not (d / "exported.json").exists():
+        tmpf = d / f"exported.{os.getpid()}.tmp"
+        tmpf.write_text(exp_text)
+        os.replace(tmpf, d / "exported.json")
     pub = common.REPO / "geff-schema.json"
     script = Path(__file__).resolve().parent / "c08_jsonschema_worker.py"
     env = {k: v for k, v in os.environ.items() if not k.startswith("PYTHON")}
